@@ -14,7 +14,12 @@ def mk(ts, ids=None, feat=True):
     ids = ids if ids is not None else list(range(len(ts)))
     obs = []
     for i, t in zip(ids, ts):
-        ot = ObsTime.readUnixTime(t // 1000)
+        if t < 0:                                   # an instant before 1970 (archive data), built from its calendar fields
+            import datetime
+            d = datetime.datetime(1970, 1, 1) + datetime.timedelta(seconds=t // 1000)
+            ot = ObsTime(d.year, d.month, d.day, d.hour, d.minute, d.second, 0)
+        else:
+            ot = ObsTime.readUnixTime(t // 1000)
         ot.ms = t % 1000
         obs.append(Obs(ENUCoords(float(i), 0, 0), ot))
     tr = Track(obs)
@@ -28,7 +33,12 @@ def ids_of(tr):
 
 
 def tms(tr):
-    return [int(round(tr.getObs(i).timestamp.toAbsTime() * 1000)) for i in range(tr.size())]
+    import datetime
+    out = []
+    for i in range(tr.size()):
+        t = tr.getObs(i).timestamp
+        out.append(int((datetime.datetime(t.year, t.month, t.day, t.hour, t.min, t.sec) - datetime.datetime(1970, 1, 1)).total_seconds()) * 1000 + int(t.ms))
+    return out
 
 
 # ------------------------------------------------------------------ insertion
@@ -261,7 +271,10 @@ def gen_sort(rng, n, tier):
         if rng.random() < 0.3:                      # instants spread over decades (both sides of 2000, month and year ends) instead of a few seconds
             Y = [0, 86400 * 365, 946684800 - 2, 946684800, 946684801, 1514764800, 1546300800 + 86400 * 58, 1893456000, 3124224000 - 1]
             ts = [rng.choice(Y) * 1000 + rng.choice([0, 0, 500, 1000, 61000]) for _ in range(k)]
-        out.append({'ts': ts, 'how': rng.choice(['sort', 'sort', 'radix'])})      # Track.sort() or Track.sortRadix(): two public ways to the same contract
+        how = rng.choice(['sort', 'sort', 'radix'])
+        if how == 'sort' and rng.random() < 0.15:   # archive data: instants before 1970 (the timestamps are calendar dates; sort() orders them as such)
+            ts = [rng.choice([-86400 * 365 * 15, -86400 * 365 * 8 - 86400 * 40, -86400 * 300, -1, 0, 86400 * 200]) * 1000 + rng.choice([0, 1000, 500]) for _ in range(k)]
+        out.append({'ts': ts, 'how': how})      # Track.sort() or Track.sortRadix(): two public ways to the same contract
     return out
 
 
